@@ -197,9 +197,9 @@ func (s *SessionKey) Decrypt(ciphertext []byte) ([]byte, error) {
 	// Advance the expected counter only for authenticated messages, so that forged
 	// input can never change what is accepted afterwards
 	s.mu.Lock()
-	if nonceValue < s.recvNonce {
+	if expected := s.recvNonce; nonceValue < expected {
 		s.mu.Unlock()
-		return nil, fmt.Errorf("nonce too old: received %d, expected >= %d", nonceValue, s.recvNonce)
+		return nil, fmt.Errorf("nonce too old: received %d, expected >= %d", nonceValue, expected)
 	}
 	s.recvNonce = nonceValue + 1
 	s.mu.Unlock()
